@@ -39,89 +39,125 @@ theorem specRun_append (float : Bool) (v : UInt64) (l : List LinEv) (x : LinEv) 
     at that point -/
 def LinInv (s : ASt) : Prop := specRun s.float 0 s.lin = some s.mem
 
-/-- an event that completes its call takes effect as the specification says, on the *current* value -/
-theorem aEv_commit {float : Bool} {mem : UInt64} {op : String} {pc : APc} {e : Ev} {mem' : UInt64} {rv : String}
-    (h : aEv float mem op pc e = .ok (mem', .inr rv)) : specApply float mem op = some (mem', rv) := by
-  unfold aEv at h
+/-- a first step that completes its call takes effect as the specification says, on the current value -/
+theorem aEvStart_commit {float : Bool} {mem : UInt64} {op : String} {e : Ev} {mem' : UInt64} {rv : String}
+    (h : aEvStart float mem op e = .ok (mem', .inr rv)) : specApply float mem op = some (mem', rv) := by
+  unfold aEvStart at h
+  simp only at h
+  unfold specApply
+  simp only
+  split at h
+  · next hg =>
+    rw [guard_ok] at h; obtain ⟨_, h⟩ := h; cases h
+    simp [hg]
+  · next hg =>
+    split at h
+    · next hs =>
+      rw [guard_ok] at h; obtain ⟨_, h⟩ := h; cases h
+      simp [hg, hs]
+    · next hs =>
+      split at h
+      · next hf =>
+        split at h
+        · cases h
+        · rw [guard_ok] at h; obtain ⟨_, h⟩ := h; cases h
+      · next hf =>
+        rw [guard_ok] at h; obtain ⟨_, h⟩ := h; cases h
+        simp [hg, hs, hf]
+
+/-- a compare-exchange that completes its call takes effect as the specification says, on the current value -/
+theorem aEvCas_commit {float : Bool} {mem : UInt64} {op : String} {cur : UInt64} {e : Ev} {mem' : UInt64} {rv : String}
+    (h : aEvCas float mem op cur e = .ok (mem', .inr rv)) : specApply float mem op = some (mem', rv) := by
+  unfold aEvCas at h
   simp only at h
   split at h
   · cases h
-  · cases pc with
-    | start =>
-      simp only at h
+  · next d hd =>
+    rw [guard_ok] at h; obtain ⟨hg, h⟩ := h
+    simp only [Bool.and_eq_true, beq_iff_eq] at hg
+    split at h
+    · rw [guard_ok] at h; obtain ⟨hc, h⟩ := h
+      simp only [Bool.and_eq_true, beq_iff_eq] at hc
+      cases h
       unfold specApply
-      simp only
-      split at h
-      · next hg =>
-        rw [guard_ok] at h; obtain ⟨_, h⟩ := h; cases h
-        simp [hg]
-      · next hg =>
-        split at h
-        · next hs =>
-          rw [guard_ok] at h; obtain ⟨_, h⟩ := h; cases h
-          simp [hg, hs]
-        · next hs =>
-          split at h
-          · next hf =>
-            split at h
-            · cases h
-            · rw [guard_ok] at h; obtain ⟨_, h⟩ := h; cases h
-          · next hf =>
-            rw [guard_ok] at h; obtain ⟨_, h⟩ := h; cases h
-            simp [hg, hs, hf]
-    | cas cur =>
+      have hfl : float = true := hg.1.1.1.1
+      have hng : (opName op == "get") = false := by
+        cases hh : opName op == "get"
+        · rfl
+        · simp only [beq_iff_eq] at hh; simp [floatDelta, hh] at hd
+      have hns : (opName op == "set" || opName op == "reset") = false := by
+        cases hh : (opName op == "set" || opName op == "reset")
+        · rfl
+        · simp only [Bool.or_eq_true, beq_iff_eq] at hh
+          rcases hh with hh | hh <;> simp [floatDelta, hh] at hd
+      simp [hng, hns, hfl, hd, hc.1]
+    · rw [guard_ok] at h; obtain ⟨_, h⟩ := h; cases h
+
+/-- what `aEv` is at each program counter, once the location is the cell's: at `retry cur` a load is
+    handled as at `start`, any other event as at `cas cur` -/
+theorem aEv_cases {float : Bool} {mem : UInt64} {op : String} {pc : APc} {e : Ev} {r : UInt64 × (APc ⊕ String)}
+    (h : aEv float mem op pc e = .ok r) :
+    (aEvStart float mem op e = .ok r ∧ (pc = .start ∨ ∃ cur, pc = .retry cur ∧ e.k = "L")) ∨
+    (∃ cur, aEvCas float mem op cur e = .ok r ∧ (pc = .cas cur ∨ (pc = .retry cur ∧ e.k ≠ "L"))) := by
+  unfold aEv at h
+  split at h
+  · cases h
+  · cases pc with
+    | start => exact .inl ⟨h, .inl rfl⟩
+    | cas cur => exact .inr ⟨cur, h, .inl rfl⟩
+    | retry cur =>
       simp only at h
       split at h
-      · cases h
-      · next d hd =>
-        rw [guard_ok] at h; obtain ⟨hg, h⟩ := h
-        simp only [Bool.and_eq_true, beq_iff_eq] at hg
-        split at h
-        · rw [guard_ok] at h; obtain ⟨hc, h⟩ := h
-          simp only [Bool.and_eq_true, beq_iff_eq] at hc
-          cases h
-          unfold specApply
-          have hfl : float = true := hg.1.1.1.1
-          have hng : (opName op == "get") = false := by
-            cases hh : opName op == "get"
-            · rfl
-            · simp only [beq_iff_eq] at hh; simp [floatDelta, hh] at hd
-          have hns : (opName op == "set" || opName op == "reset") = false := by
-            cases hh : (opName op == "set" || opName op == "reset")
-            · rfl
-            · simp only [Bool.or_eq_true, beq_iff_eq] at hh
-              rcases hh with hh | hh <;> simp [floatDelta, hh] at hd
-          simp [hng, hns, hfl, hd, hc.1]
-        · rw [guard_ok] at h; obtain ⟨_, h⟩ := h; cases h
+      · next hk => exact .inl ⟨h, .inr ⟨cur, rfl, by simpa using hk⟩⟩
+      · next hk => exact .inr ⟨cur, h, .inr ⟨rfl, by simpa using hk⟩⟩
+
+/-- an event that completes its call takes effect as the specification says, on the *current* value -/
+theorem aEv_commit {float : Bool} {mem : UInt64} {op : String} {pc : APc} {e : Ev} {mem' : UInt64} {rv : String}
+    (h : aEv float mem op pc e = .ok (mem', .inr rv)) : specApply float mem op = some (mem', rv) := by
+  rcases aEv_cases h with ⟨h, _⟩ | ⟨cur, h, _⟩
+  · exact aEvStart_commit h
+  · exact aEvCas_commit h
+
+/-- a first step after which the call continues is the load of a float add: nothing changes, next is
+    the compare-exchange expecting the value loaded -/
+theorem aEvStart_continue {float : Bool} {mem : UInt64} {op : String} {e : Ev} {mem' : UInt64} {pc' : APc}
+    (h : aEvStart float mem op e = .ok (mem', .inl pc')) : mem' = mem ∧ pc' = .cas mem ∧ e.k = "L" := by
+  unfold aEvStart at h
+  simp only at h
+  split at h
+  · rw [guard_ok] at h; obtain ⟨_, h⟩ := h; cases h
+  · split at h
+    · rw [guard_ok] at h; obtain ⟨_, h⟩ := h; cases h
+    · split at h
+      · split at h
+        · cases h
+        · rw [guard_ok] at h; obtain ⟨hg, h⟩ := h; cases h
+          simp only [Bool.and_eq_true, beq_iff_eq] at hg
+          exact ⟨rfl, rfl, hg.1.1⟩
+      · rw [guard_ok] at h; obtain ⟨_, h⟩ := h; cases h
+
+/-- a compare-exchange after which the call continues failed, reported the current value, changed nothing
+    and leaves the thread at `retry` of that value -/
+theorem aEvCas_continue {float : Bool} {mem : UInt64} {op : String} {cur : UInt64} {e : Ev} {mem' : UInt64} {pc' : APc}
+    (h : aEvCas float mem op cur e = .ok (mem', .inl pc')) : mem' = mem ∧ pc' = .retry mem ∧ e.ok = false ∧ e.res = mem := by
+  unfold aEvCas at h
+  simp only at h
+  split at h
+  · cases h
+  · rw [guard_ok] at h; obtain ⟨_, h⟩ := h
+    split at h
+    · rw [guard_ok] at h; obtain ⟨_, h⟩ := h; cases h
+    · next hok =>
+      rw [guard_ok] at h; obtain ⟨hr, h⟩ := h; cases h
+      exact ⟨rfl, rfl, by simpa using hok, by simpa using hr⟩
 
 /-- an event that does not complete its call (the load of a float add, a failed compare-exchange)
     leaves the cell as it was -/
 theorem aEv_continue {float : Bool} {mem : UInt64} {op : String} {pc : APc} {e : Ev} {mem' : UInt64} {pc' : APc}
     (h : aEv float mem op pc e = .ok (mem', .inl pc')) : mem' = mem := by
-  unfold aEv at h
-  simp only at h
-  split at h
-  · cases h
-  · cases pc with
-    | start =>
-      simp only at h
-      split at h
-      · rw [guard_ok] at h; obtain ⟨_, h⟩ := h; cases h
-      · split at h
-        · rw [guard_ok] at h; obtain ⟨_, h⟩ := h; cases h
-        · split at h
-          · split at h
-            · cases h
-            · rw [guard_ok] at h; obtain ⟨_, h⟩ := h; cases h; rfl
-          · rw [guard_ok] at h; obtain ⟨_, h⟩ := h; cases h
-    | cas cur =>
-      simp only at h
-      split at h
-      · cases h
-      · rw [guard_ok] at h; obtain ⟨_, h⟩ := h
-        split at h
-        · rw [guard_ok] at h; obtain ⟨_, h⟩ := h; cases h
-        · rw [guard_ok] at h; obtain ⟨_, h⟩ := h; cases h; rfl
+  rcases aEv_cases h with ⟨h, _⟩ | ⟨cur, h, _⟩
+  · exact (aEvStart_continue h).1
+  · exact (aEvCas_continue h).1
 
 
 def skipOp (op : String) : Bool := opName op == "lflush" && parseIntArg (opArg op) == 0
